@@ -5,6 +5,7 @@
 
 pub mod collections;
 pub mod kernel;
+pub mod net;
 pub mod rng;
 pub mod sync;
 pub mod thread;
